@@ -1,0 +1,20 @@
+//! Verification seams, compiled only with the `verif-hooks` cargo feature.
+//!
+//! Everything in here is additive: with the feature off none of this exists
+//! and the crate behaves exactly as before. The seams give an external
+//! harness control over the story seed, a step budget ("fuel") so that
+//! looping stories terminate, and a virtual clock for `continue_async`.
+use std::cell::Cell;
+
+thread_local! {
+    static FORCED_SEED: Cell<Option<i32>> = const { Cell::new(None) };
+}
+
+/// Force the seed every new `StoryState` gets on this thread (`None` = random, as usual).
+pub fn set_forced_seed(seed: Option<i32>) {
+    FORCED_SEED.with(|s| s.set(seed));
+}
+
+pub(crate) fn forced_seed() -> Option<i32> {
+    FORCED_SEED.with(|s| s.get())
+}
